@@ -94,7 +94,7 @@ type Run struct {
 }
 
 // MaxStoredViolations bounds the violation list kept in memory / written out.
-const MaxStoredViolations = 2_000_000
+const MaxStoredViolations = 1_000_000
 
 // Stats returns the stats record of the harness being explored.
 func (r *Run) Stats() *HarnessStats {
@@ -334,6 +334,10 @@ func Main(id string, hs ...Harness) {
 	ev := *evidence
 	if ev == "" {
 		ev = filepath.Join("/verif/evidence", id+".json")
+	}
+	if n := r.NumViolations(); n > MaxStoredViolations {
+		fmt.Printf("WARNING: %d violating cases were found; only the first %d are kept and examined\n", n, MaxStoredViolations)
+		r.extra["violations_overflow"] = n - MaxStoredViolations
 	}
 	if len(r.unrepro) > 0 {
 		fmt.Printf("WARNING: %d violation(s) found by the explorer did not reproduce on independent replay and are NOT reported; this points at the harness (see 'unreproduced' in the evidence). First: %s: %s\n", len(r.unrepro), r.unrepro[0].Harness, r.unrepro[0].Msg)
